@@ -167,14 +167,15 @@ PLANS["C07"] = {
     "level": "exploration",
     "rule": "stage 1 (exhaustive sub-space): every string of length <= 7 (quick) / <= 9 (thorough) over {a, space, quote, backslash, dash, é} through the real Tokens::new, result must be a member of the set-valued reference tokenizer's output, valid UTF-8 and not longer than the line; "
             "stage 2: random lines up to 200 scalars over 12 symbols, round trip of random string lists through four renderings (quoted single space, quoted with blank runs, quoted adjacent, bare where possible), and every fourth list typed into a real Cli (name = first element, rest after --). "
-            "distinct = enumerated strings (disjoint by construction) + hash of the character-class shape of random lines/renderings",
+            "stage 3: every scalar value above U+0020 (DEL, quote and backslash aside) inside a bare token, alone, doubled and inside a quoted token next to a blank. 6 % of the characters of random lines and lists are arbitrary scalar values. "
+            "distinct = enumerated strings (disjoint by construction) + scalars + hash of the character-class shape of random lines/renderings",
     "assumptions": ["open points kept as alternatives: backslash before a character other than quote/backslash inside quotes; a backslash as the very last character inside an open quote",
                     "quotes and backslashes inside a token that does not start with a quote are literal (the statement only gives quoting meaning to tokens that start with a quote)"],
     "exhaustive": {"quick": True, "thorough": True},
     "exhaustive_note": {"quick": "stage 1 only: all 335,923 strings of length <= 7 over 6 symbols", "thorough": "stage 1 only: all 12,093,235 strings of length <= 9 over 6 symbols"},
-    "min_counts": {"quick": {"c07.direct.lines": 335000, "c07.roundtrip.renderings": 300000, "c07.end_to_end.lines": 20000},
-                   "thorough": {"c07.direct.lines": 12000000, "c07.roundtrip.renderings": 10000000, "c07.end_to_end.lines": 700000}},
-    "stages": [{"variant": "dbg", "workload": "C07-direct"}, {"variant": "dbg", "workload": "C07-random"}],
+    "min_counts": {"quick": {"c07.direct.lines": 335000, "c07.roundtrip.renderings": 300000, "c07.end_to_end.lines": 20000, "c07.scalars": 1112027},
+                   "thorough": {"c07.direct.lines": 12000000, "c07.roundtrip.renderings": 10000000, "c07.end_to_end.lines": 700000, "c07.scalars": 1112027}},
+    "stages": [{"variant": "dbg", "workload": "C07-direct"}, {"variant": "dbg", "workload": "C07-random"}, {"variant": "dbg", "workload": "C07-scalars"}],
 }
 MANIFEST_TEXT["C07"] = {
     "technique": "runtime monitoring: real tokenizer output checked for membership in a set-valued reference tokenizer over a bounded-exhaustive string space; round-trip oracle on random lists; end-to-end through the Cli",
